@@ -601,9 +601,57 @@ def round2_cases(rng, tier):
     return cases
 
 
+UNDERSCORE_NAMES = ["c", "a_to_b", "b_to_c", "a", "kappa_1", "x_to_", "_to_y", "b"]
+
+
+def underscore_cases(rng, tier):
+    """audit round 2: parameter names with underscores and with the substring "_to_" (two different links can
+    then have the same listener id __alias_<y>_to_<x>): aliasing in both orders, copy / assignment, updates on
+    both sides, un-aliasing of each link, queries; and short random histories over such names."""
+    cases = []
+    pairs = [(("c", "a_to_b"), ("b_to_c", "a")), (("b_to_c", "a"), ("c", "a_to_b")),
+             (("x_to_", "b"), ("b", "x_to_")), (("_to_y", "a"), ("y", "a_to_")), (("kappa_1", "a"), ("a", "c"))]
+    for n, (l1, l2) in enumerate(pairs):
+        for pre in ["-", "m."]:
+            g = Gen(rng, "underscore %d %s" % (n, pre))
+            g.new(0, pre)
+            names = sorted(set(UNDERSCORE_NAMES + ["y", "a_to_"]))
+            for s in names:
+                g.add(0, s, q=rng.randint(-8, 8), con="-")
+            g.alias(0, *l1); g.alias(0, *l2)
+            g.setv(0, l1[0]); g.setv(0, l2[0])
+            g.copy(0, 1); g.setv(1, l1[0]); g.setv(1, l2[0])
+            g.new(2, pre); g.add(2, "c", q=1, con="-"); g.assign(0, 2); g.setv(2, l1[0]); g.setv(2, l2[0])
+            g.emit("aliases 1")
+            g.unalias(0, *l2); g.unalias(0, *l1); g.alias(0, *l2); g.setv(0, l2[0])
+            g.unalias(1, *l1); g.setv(1, l1[0]); g.setv(1, l2[0])
+            cases.append(g.ops)
+    for i in range(10 if tier == "quick" else 60):
+        g = Gen(rng, "underscore random %d" % i)
+        g.new(0, rng.choice(["-", "m."]))
+        for s in UNDERSCORE_NAMES:
+            g.add(0, s, q=rng.randint(-8, 8), con="-")
+        for _ in range(rng.randint(10, 25)):
+            r = rng.random()
+            a, b = rng.sample(UNDERSCORE_NAMES, 2)
+            if r < 0.35:
+                g.alias(0, a, b)
+            elif r < 0.5:
+                g.unalias(0, a, b)
+            elif r < 0.8:
+                g.setv(0, a)
+            elif r < 0.9:
+                g.copy(0, 1); g.setv(1, a)
+            else:
+                g.emit("aliases 0"); g.emit("aliasof 0 %s" % a)
+        cases.append(g.ops)
+    return cases
+
+
 def generate(seed, tier):
     rng = random.Random(seed)
     cases = []
+    cases += underscore_cases(rng, tier)
     cases += round2_cases(rng, tier)
     cases += chain_cases(rng, tier)
     cases += refuse_cases(rng, tier)
